@@ -286,7 +286,7 @@ def check_case(key, ctx, case, per_call_timeout=5.0):
             return {"clause": f"raises.{ename}.state", "observed": "state changed on the exceptional path"}
         return None
     for ename, spec in c.raises.items():
-        if eval_clause(spec["when"], old_env, {}):
+        if spec.get("must", True) and eval_clause(spec["when"], old_env, {}):
             return {"clause": f"raises.{ename}.must_raise", "observed": f"returned {result!r:.200}"}
     env["result"] = result
     for name, text in c.ensures:
